@@ -90,6 +90,10 @@ pub fn c03(eps: &[(f32, EnergyPerformance)]) -> Option<String> {
         for (s, v) in &e.balance.we.a_by_srv {
             if let Some(v0) = e0.balance.we.a_by_srv.get(s) { if !r3eq(*v, *v0) { return Some(format!("k={}: step A of service {} depends on k_exp: {} vs {}", k, s, v, v0)); } }
         }
+        for (s, v) in &e.balance_m2.we.a_by_srv {
+            if let Some(v0) = e0.balance_m2.we.a_by_srv.get(s) { if !r3eq(*v, *v0) { return Some(format!("k={}: per-m2 step A of service {} depends on k_exp: {} vs {}", k, s, v, v0)); } }
+        }
+        if !r3eq(e.balance_m2.we.a, e0.balance_m2.we.a) { return Some(format!("k={}: per-m2 step A depends on k_exp", k)); }
         for (s, v) in &e.balance.we.b_by_srv {
             if let (Some(a), Some(b1)) = (e0.balance.we.a_by_srv.get(s), e1.balance.we.b_by_srv.get(s)) {
                 if !r3eq(*v, aff(*a, *b1)) { return Some(format!("k={}: step B of service {} = {} is not affine in k_exp", k, s, v)); }
@@ -158,8 +162,18 @@ pub fn c04(ep: &EnergyPerformance) -> Option<String> {
         ("exp.an", m.exp.an, b.exp.an * k), ("we.a.nren", m.we.a.nren, b.we.a.nren * k), ("we.b.nren", m.we.b.nren, b.we.b.nren * k), ("we.b.ren", m.we.b.ren, b.we.b.ren * k), ("we.b.co2", m.we.b.co2, b.we.b.co2 * k)] {
         if !eq(x, y) { return Some(format!("per-m2 {} = {} != total / area = {}", name, x, y)); }
     }
-    for (s, v) in &b.we.b_by_srv { if let Some(w) = m.we.b_by_srv.get(s) { if !eq(w.nren, v.nren * k) { return Some(format!("per-m2 step B of service {} wrong", s)); } } else { return Some("per-m2 by-service entry missing".into()); } }
-    for (s, v) in &b.we.a_by_srv { if let Some(w) = m.we.a_by_srv.get(s) { if !eq(w.nren, v.nren * k) { return Some(format!("per-m2 step A of service {} wrong", s)); } } else { return Some("per-m2 by-service entry missing".into()); } }
+    for (name, x, y) in [("used.nepus", m.used.nepus, b.used.nepus * k), ("used.cgnus", m.used.cgnus, b.used.cgnus * k), ("del.onst", m.del.onst, b.del.onst * k), ("exp.grid", m.exp.grid, b.exp.grid * k), ("exp.nepus", m.exp.nepus, b.exp.nepus * k),
+        ("we.a.ren", m.we.a.ren, b.we.a.ren * k), ("we.a.co2", m.we.a.co2, b.we.a.co2 * k), ("we.del.nren", m.we.del.nren, b.we.del.nren * k), ("we.exp.nren", m.we.exp.nren, b.we.exp.nren * k), ("we.exp_a.nren", m.we.exp_a.nren, b.we.exp_a.nren * k)] {
+        if !eq(x, y) { return Some(format!("per-m2 {} = {} != total / area = {}", name, x, y)); }
+    }
+    for (name, x, y) in [("needs.ACS", m.needs.ACS, b.needs.ACS), ("needs.CAL", m.needs.CAL, b.needs.CAL), ("needs.REF", m.needs.REF, b.needs.REF)] {
+        match (x, y) { (Some(x), Some(y)) => if !eq(x, y * k) { return Some(format!("per-m2 {} = {} != total / area = {}", name, x, y * k)); }, (None, None) => {}, _ => return Some(format!("per-m2 {} is {:?} but the absolute value is {:?}", name, x, y)) }
+    }
+    for (mname, a, bm) in [("used.epus_by_srv", &m.used.epus_by_srv, &b.used.epus_by_srv)] { for (s, v) in bm { if a.get(s).map(|w| eq(*w, v * k)) != Some(true) { return Some(format!("per-m2 {}[{}] wrong or missing", mname, s)); } } }
+    for (mname, a, bm) in [("used.epus_by_cr", &m.used.epus_by_cr, &b.used.epus_by_cr), ("prod.by_cr", &m.prod.by_cr, &b.prod.by_cr), ("del.grid_by_cr", &m.del.grid_by_cr, &b.del.grid_by_cr)] { for (s, v) in bm { if a.get(s).map(|w| eq(*w, v * k)) != Some(true) { return Some(format!("per-m2 {}[{}] wrong or missing", mname, s)); } } }
+    for (mname, a, bm) in [("prod.by_src", &m.prod.by_src, &b.prod.by_src), ("prod.epus_by_src", &m.prod.epus_by_src, &b.prod.epus_by_src)] { for (s, v) in bm { if a.get(s).map(|w| eq(*w, v * k)) != Some(true) { return Some(format!("per-m2 {}[{}] wrong or missing", mname, s)); } } }
+    for (s, v) in &b.we.b_by_srv { if let Some(w) = m.we.b_by_srv.get(s) { if !(eq(w.nren, v.nren * k) && eq(w.ren, v.ren * k) && eq(w.co2, v.co2 * k)) { return Some(format!("per-m2 step B of service {} wrong", s)); } } else { return Some("per-m2 by-service entry missing".into()); } }
+    for (s, v) in &b.we.a_by_srv { if let Some(w) = m.we.a_by_srv.get(s) { if !(eq(w.nren, v.nren * k) && eq(w.ren, v.ren * k) && eq(w.co2, v.co2 * k)) { return Some(format!("per-m2 step A of service {} = {} wrong (absolute {} / area {})", s, w, v, ep.arearef)); } } else { return Some("per-m2 by-service entry missing".into()); } }
     None
 }
 
@@ -232,7 +246,7 @@ pub fn check(pid: &str, seed: u64) -> Value {
     if ["C05", "C06", "C07", "C08", "C10", "C16"].contains(&pid) {
         let mut rep = crate::preds2::Rep { evals: 0, nontrivial: 0, failures: vec![], samples: vec![] };
         let (domain, rule) = match pid {
-            "C05" => { crate::preds2::c05(&mut rep); crate::preds2::c05_special(&mut rep); ("EAMBIENTE / TERMOSOLAR x two systems with ids from {-1,0,1} (also the same id twice) x use in {0, 2, (3,1)} x declared production in {none, 1, 5, (0,4)} x one use, two EPB uses, or an EPB and a non-EPB use per system; 2 steps", "every generated file has ambient / solar components") }
+            "C05" => { crate::preds2::c05(&mut rep); crate::preds2::c05_special(&mut rep); crate::preds2::c05_outputs(&mut rep); ("EAMBIENTE / TERMOSOLAR x two systems with ids from {-1,0,1} (also the same id twice) x use in {0, 2, (3,1)} x declared production in {none, 1, 5, (0,4)} x one use, two EPB uses, or an EPB and a non-EPB use per system; 2 steps", "every generated file has ambient / solar components") }
             "C06" => { crate::preds2::c06(&mut rep); crate::preds2::c06_special(&mut rep); ("system 1 with services {CAL},{CAL,ACS},{CAL,REF},{CAL,ACS,REF} x outputs from {30,10,-10,(30,0),(10,0),(0,20)} x AUX in {4,(4,2),(0,3)} x with/without a second single-service system with AUX x electricity otherwise present or absent", "multi-service systems are the non-trivial cases") }
             "C16" => { crate::preds2::c16(&mut rep, seed); ("the repository's test_data component files, the special buildings of the other predicates, 21 hand-written edge shapes (AUX without consumption, DHW demand with biomass and PV, empty / short / non-numeric / non-finite fields, different lengths) and 60 seeded token- or line-level corruptions (drop, duplicate, swap, replace) of each of the first 20 files; each parsed, evaluated with the full and the stripped factor set in both load-matching modes and passed to the DHW renewable fraction, under catch_unwind", "an input is non-trivial when it parses and at least one evaluation succeeds") }
             "C10" => { crate::preds2::c10(&mut rep, seed); ("6 base files x {6 random line orders, comments/blank/header/BOM/whitespace and their combinations, ids renumbered, id 0 omitted, one component split in two lines} + 60 repeated evaluations each", "every rewriting is non-trivial") }
@@ -261,16 +275,17 @@ pub fn check(pid: &str, seed: u64) -> Value {
         for lm in [false, true] {
             match pid {
                 "C01" | "C04" | "C13" => {
-                    let (k, area) = if pid == "C04" { (0.5, 2.5) } else { (0.0, 1.0) };
+                  for (k, area) in (if pid == "C04" { vec![(0.5f32, 2.5f32), (1.0, 12.345), (0.25, 0.004), (0.0, 0.015)] } else { vec![(0.0, 1.0)] }) {
                     evals += 1;
                     if let Ok(ep) = run(&tcase(t, k, area, lm)) {
                         nontrivial += 1;
                         match pid {
                             "C01" => if let Some(w) = c01(&ep) { failures.push(json!({"clause": "C01", "components": t, "k_exp": k, "load_matching": lm, "what": w})); },
-                            "C04" => if let Some(w) = c04(&ep) { failures.push(json!({"clause": "C04", "components": t, "k_exp": k, "load_matching": lm, "what": w})); },
+                            "C04" => if let Some(w) = c04(&ep) { failures.push(json!({"clause": "C04", "components": t, "k_exp": k, "area": area, "load_matching": lm, "what": w})); },
                             _ => for (cl, w) in c13(&ep) { if known.iter().filter(|f| f["clause"] == cl).count() < 3 { known.push(json!({"clause": cl, "components": t, "k_exp": k, "load_matching": lm, "what": w})); } },
                         }
                     }
+                  }
                 }
                 "C03" => {
                     let mut v = vec![];
@@ -281,26 +296,29 @@ pub fn check(pid: &str, seed: u64) -> Value {
                     let steps_n = t.parse::<cteepbd::Components>().map(|c| c.num_steps()).unwrap_or(1).max(1);
                     for k in [0.0f32, 0.5, 1.0] {
                         evals += 1;
-                        let e0 = match run(&tcase(t, k, 1.0, lm)) { Ok(e) => e, Err(_) => continue };
+                      for loc in ["PENINSULA", "BALEARES", "CANARIAS", "CEUTAMELILLA"] {
+                        let tc = |text: &str| Case { text: text.to_string(), loc, k_exp: k, area: 1.0, lm };
+                        let e0 = match run(&tc(t)) { Ok(e) => e, Err(_) => continue };
                         nontrivial += 1;
                         for (d, pos) in [(0.5f32, 0usize), (5.0, 0), (10.0, 1), (10.0, 2), (10000.0, 0)] {
                             if pos >= steps_n { continue; }
                             let more = format!("{}\n9,PRODUCCION,EL_INSITU,{}", t, (0..steps_n).map(|i| if i == pos { format!("{}", d) } else { "0".to_string() }).collect::<Vec<_>>().join(","));
                             evals += 1;
-                            if let Ok(e1) = run(&tcase(&more, k, 1.0, lm)) {
+                            if let Ok(e1) = run(&tc(&more)) {
                                 let (a0, a1, b0, b1) = (e0.balance.we.a, e1.balance.we.a, e0.balance.we.b, e1.balance.we.b);
                                 let bio = t.contains("COGEN,BIOMASA");
                                 if !le(a1.nren, a0.nren) || !le(b1.nren, b0.nren) || !le(a1.co2, a0.co2) || !le(b1.co2, b0.co2) || !le(e1.balance.del.grid, e0.balance.del.grid) {
-                                    failures.push(json!({"clause": "C14.nren_co2_grid", "components": t, "k_exp": k, "load_matching": lm, "what": format!("adding {} kWh of on-site electricity raises nren / CO2 / grid delivery: B.nren {} -> {}, B.co2 {} -> {}, grid {} -> {}", d, b0.nren, b1.nren, b0.co2, b1.co2, e0.balance.del.grid, e1.balance.del.grid)}));
+                                    failures.push(json!({"clause": "C14.nren_co2_grid", "components": t, "loc": loc, "k_exp": k, "load_matching": lm, "what": format!("adding {} kWh of on-site electricity raises nren / CO2 / grid delivery: B.nren {} -> {}, B.co2 {} -> {}, grid {} -> {}", d, b0.nren, b1.nren, b0.co2, b1.co2, e0.balance.del.grid, e1.balance.del.grid)}));
                                 }
                                 if k == 0.0 && b0.ren + b0.nren > 1e-3 && b1.ren + b1.nren > 1e-3 && !le(e0.rer, e1.rer) {
                                     let cl = if bio { "C14.rer.renewable_cogeneration" } else { "C14.rer" };
                                     if failures.iter().filter(|f| f["clause"] == cl).count() < 3 {
-                                        failures.push(json!({"clause": cl, "components": t, "k_exp": k, "load_matching": lm, "what": format!("adding {} kWh of on-site electricity lowers RER {} -> {}", d, e0.rer, e1.rer)}));
+                                        failures.push(json!({"clause": cl, "components": t, "loc": loc, "k_exp": k, "load_matching": lm, "what": format!("{}: adding {} kWh of on-site electricity lowers RER {} -> {}", loc, d, e0.rer, e1.rer)}));
                                     }
                                 }
                             }
                         }
+                      }
                     }
                 }
                 "C11" => {
@@ -342,6 +360,51 @@ pub fn check(pid: &str, seed: u64) -> Value {
                 _ => {}
             }
         }
+    }
+    if pid == "C09" {
+        // series whose length is neither small nor a multiple of 24: rotation of 30 steps, 13 steps split in 4 (52) and in 3 (39)
+        let col = |n: usize, f: &dyn Fn(usize) -> f32| (0..n).map(|i| format!("{}", f(i))).collect::<Vec<_>>().join(",");
+        let build = |n: usize, scale: f32, rot: usize, rep: usize| -> String {
+            let idx = move |i: usize| ((i / rep) + rot) % (n / rep);
+            format!("1,CONSUMO,CAL,GASNATURAL,{}\n2,CONSUMO,ACS,ELECTRICIDAD,{}\n2,CONSUMO,ACS,EAMBIENTE,{}\n3,PRODUCCION,EL_INSITU,{}\n4,CONSUMO,NEPB,ELECTRICIDAD,{}",
+                col(n, &|i| scale * (36.0 + (idx(i) % 5) as f32)), col(n, &|i| scale * (8.0 + (idx(i) % 3) as f32)), col(n, &|i| scale * (20.0 + (idx(i) % 4) as f32)), col(n, &|i| scale * ((idx(i) % 7) as f32 * 3.0)), col(n, &|i| scale * 1.5))
+        };
+        for lm in [false, true] {
+            for (name, base, var) in [("30 steps rotated by 7", build(30, 1.0, 0, 1), build(30, 1.0, 7, 1)), ("13 steps, each split in 4", build(13, 1.0, 0, 1), build(52, 0.25, 0, 4)), ("13 steps, each split in 3", build(13, 1.0, 0, 1), build(39, 1.0 / 3.0, 0, 3))] {
+                evals += 2;
+                if let (Ok(a), Ok(b)) = (run(&tcase(&base, 0.5, 1.0, lm)), run(&tcase(&var, 0.5, 1.0, lm))) {
+                    nontrivial += 1;
+                    let (sa, sb) = (annual_sig2(&a), annual_sig2(&b));
+                    if let Some(p) = sig_eq(&sa, &sb) { failures.push(json!({"clause": "C09", "components": name, "load_matching": lm, "what": format!("{}: annual result #{} = {} instead of {}", name, p, sb[p], sa[p])})); }
+                } else { failures.push(json!({"clause": "C09", "components": name, "what": "evaluation failed"})); }
+            }
+        }
+    }
+    if pid == "C01" {
+        // components built in code with series of different lengths (the text parser refuses them): either no result or a result that still balances
+        
+        let mk = |u: Vec<f32>, p: Vec<f32>, n: Vec<f32>| cteepbd::Components { meta: vec![], needs: Default::default(), data: vec![
+            Energy::Used(EUsed { id: 1, carrier: Carrier::ELECTRICIDAD, service: Service::ACS, values: u, comment: String::new() }),
+            Energy::Prod(EProd { id: 2, source: ProdSource::EL_INSITU, values: p, comment: String::new() }),
+            Energy::Used(EUsed { id: 3, carrier: Carrier::ELECTRICIDAD, service: Service::NEPB, values: n, comment: String::new() }) ] };
+        let prev = std::panic::take_hook();
+        std::panic::set_hook(Box::new(|_| {}));
+        for (u, p, n) in [(vec![10.0, 10.0, 10.0], vec![4.0, 4.0], vec![1.0, 1.0, 1.0]), (vec![10.0], vec![20.0, 20.0, 20.0], vec![2.0, 2.0, 2.0]), (vec![5.0, 5.0], vec![9.0, 9.0], vec![1.0])] {
+            evals += 1;
+            let comps = mk(u.clone(), p.clone(), n.clone());
+            let w = crate::factors("PENINSULA");
+            let r = std::panic::catch_unwind(move || cteepbd::energy_performance(&comps, &w, 0.0, 1.0, false));
+            if let Ok(Ok(ep)) = r {
+                nontrivial += 1;
+                let (su, sp): (f32, f32) = (u.iter().sum(), p.iter().sum());
+                for b in ep.balance_cr.values() {
+                    if !(eq(b.used.epus_an, su) && eq(b.prod.an, sp) && eq(b.used.epus_an, b.prod.epus_an + b.del.grid_an) && eq(b.prod.an, b.prod.epus_an + b.exp.an)) {
+                        failures.push(json!({"clause": "C01.unequal_lengths", "components": format!("Used {:?} / Prod {:?} / nEPB {:?} built in code", u, p, n), "what": format!("a result is returned and it does not balance: use {} (declared {}), production {} (declared {}), produced-and-used {}, grid {}, exported {}", b.used.epus_an, su, b.prod.an, sp, b.prod.epus_an, b.del.grid_an, b.exp.an)}));
+                    }
+                }
+            }
+        }
+        std::panic::set_hook(prev);
     }
     if pid == "C12" {
         // an hourly series (8760 steps) with on-site and cogenerated electricity
